@@ -20,7 +20,9 @@ type propDef struct {
 	Level    string
 	Run      func(c *Ctx)
 	Canaries map[string]string // short pkg path -> overlay source
-	Thorough func(c *Ctx)      // extra rules in the thorough tier (may be nil)
+	// CanaryGen builds the overlay from the names the current tree uses (needs a first load)
+	CanaryGen func(P *Prog) map[string]string
+	Thorough  func(c *Ctx) // extra rules in the thorough tier (may be nil)
 }
 
 var props = map[string]*propDef{}
@@ -112,6 +114,11 @@ func runProp(pd *propDef, repo, verif, tier string, seed int64, evPath string, s
 		return 1
 	}
 	canaryErr := ""
+	if pd.CanaryGen != nil {
+		if P0, err0 := loadRepo(repo, "", nil); err0 == nil {
+			pd.Canaries = pd.CanaryGen(P0)
+		}
+	}
 	P, err := loadRepo(repo, "", pd.Canaries)
 	if err != nil && len(pd.Canaries) > 0 {
 		// The injected canary functions may no longer type-check against the
